@@ -1400,6 +1400,28 @@ def _to_be(it, args, dty, func):
     return Seq("array", out)
 
 
+@model_re(r"^core::num::<impl [ui](8|16|32|64|128|size)>::to_le_bytes$")
+def _to_le(it, args, dty, func):
+    w = int_width(re.search(r"impl (\w+)>", func).group(1))
+    v = args[0]
+    out = []
+    for i in range(w // 8):
+        out.append((v >> (8 * i)) & 0xFF if isinstance(v, int) else simp(z3.Extract(8 * i + 7, 8 * i, v)))
+    return Seq("array", out)
+
+
+@model_re(r"^core::num::<impl u(8|16|32|64|128|size)>::from_le_bytes$")
+def _from_le(it, args, dty, func):
+    return be_int(list(reversed(args[0].f)))
+
+
+@model("std::array::<impl [T]>::as_mut_slice", "std::array::<impl [T]>::as_slice", "core::array::<impl [T; N]>::as_mut_slice", "core::array::<impl [T; N]>::as_slice")
+def _array_as_slice(it, args, dty, func):
+    a = args[0]
+    t = a.load() if isinstance(a, Ref) else a
+    return SliceRef(a, 0, len(t.f))
+
+
 def _ity(func):
     return re.search(r"impl (\w+)>", func).group(1)
 
@@ -1591,20 +1613,30 @@ def _cow_into_owned(it, args, dty, func):
 def _from_utf8(it, args, dty, func):
     v = args[0]
     items = v.f if isinstance(v, Seq) else as_slice(v).items()
-    # validity is decided on the bytes: ASCII (< 0x80) is valid; anything else forks as "invalid"
-    conds = []
+    # validity is decided on the bytes. Two classes are explored: all ASCII (valid), and "contains a byte that occurs
+    # in no valid UTF-8 text" (0xC0, 0xC1, 0xF5..0xFF: invalid for certain, so a counterexample replays natively).
+    # Other non-ASCII content (possibly valid multi-byte text) behaves like one of the two for the callers - the
+    # string is only compared or passed on - and is left out (path abandoned, not reported as unsupported).
+    conds, never = [], []
     for x in items:
         if isinstance(x, int):
             if x >= 0x80:
                 conds.append(False)
+            never.append(x in (0xC0, 0xC1) or x >= 0xF5)
         else:
             conds.append(z3.ULT(x, 0x80))
+            never.append(z3.Or(x == 0xC0, x == 0xC1, z3.UGE(x, 0xF5)))
     valid = conj(conds)
     if it.ctx.branch(valid):
         if isinstance(v, Seq):
             return ok(Seq("string", list(items)))
         sl = as_slice(v)
         return ok(SliceRef(sl.base, sl.start, sl.len, True))
+    surely = False
+    for c in never:
+        surely = c if surely is False else (True if (surely is True or c is True) else simp(z3.Or(bl(surely), bl(c))))
+    if surely is False or not it.ctx.branch(surely):
+        raise PathAbort("non-ASCII text other than never-valid bytes: outside the UTF-8 model")
     return err(Opaque("Utf8Error"))
 
 
